@@ -72,6 +72,13 @@ impl RlteIndex {
             out.push(sorted_desc[r - 1].clone());
             r <<= 1;
         }
+        // The planner reads the smallest ladder entry as the zone's minimum. The geometric ranks only
+        // end on the last (smallest) value when the zone holds a power of two of rows: add it otherwise.
+        if r >> 1 != sorted_desc.len() {
+            if let Some(min) = sorted_desc.last() {
+                out.push(min.clone());
+            }
+        }
         out
     }
 
